@@ -909,6 +909,41 @@ def raw_invalid_probes(typed):
         c(f"Node.from_dict(data_id={nm})", lambda w, bad=bad: [n for n in N(w) if not n._children][0].from_dict(
             [{"data": "q1"}, {"data": "q2", "children": [{"data": "q3", "data_id": bad}]}]))
 
+    if typed:
+        # an invalid `kind` on every typed route that takes (or passes on) a kind
+        from nutree.typed_tree import ANY_KIND
+        import json as _json
+        for bad, nm in ((ANY_KIND, "ANY_KIND"), (5, "5"), (("a",), "('a',)"), (["k"], "['k']"), (b"k", "b'k'"), ("", "''"), (False, "False")):
+            c(f"TypedTree.add(data, kind={nm})", lambda w, bad=bad: w.trees[0].add(_fresh(w, "s:new"), kind=bad))
+            c(f"TypedTree.add_child(data, kind={nm}, before=0)", lambda w, bad=bad: w.trees[0].add_child(_fresh(w, "s:new"), kind=bad, before=0))
+            c(f"TypedNode.add(data, kind={nm})", lambda w, bad=bad: N(w)[0].add(_fresh(w, "s:new"), kind=bad))
+            c(f"TypedNode.add_child(data, kind={nm}, before=node)",
+              lambda w, bad=bad: N(w)[0].add_child(_fresh(w, "s:new"), kind=bad, before=N(w)[0].children[0]))
+            c(f"TypedNode.append_child(data, kind={nm})", lambda w, bad=bad: N(w)[-1].append_child(_fresh(w, "s:new"), kind=bad))
+            c(f"TypedNode.prepend_child(data, kind={nm})", lambda w, bad=bad: N(w)[0].prepend_child(_fresh(w, "s:new"), kind=bad))
+            c(f"TypedNode.add(node, kind={nm})", lambda w, bad=bad: N(w)[0].add(N(w, 1)[-1], kind=bad))
+            c(f"TypedNode.add(node, kind={nm}, deep=True)", lambda w, bad=bad: w.trees[1].add(N(w)[0], kind=bad, deep=True))
+            c(f"TypedNode.append_child(node, kind={nm}, deep=True)", lambda w, bad=bad: N(w, 1)[-1].append_child(N(w)[0], kind=bad, deep=True))
+            c(f"TypedNode.append_sibling(data, kind={nm})", lambda w, bad=bad: N(w)[0].append_sibling(_fresh(w, "s:new"), kind=bad))
+            c(f"TypedNode.prepend_sibling(data, kind={nm})", lambda w, bad=bad: N(w)[0].prepend_sibling(_fresh(w, "s:new"), kind=bad))
+            c(f"TypedNode.copy_to(kind={nm})", lambda w, bad=bad: N(w, 1)[-1].copy_to(N(w)[0], kind=bad))
+            c(f"TypedNode.move_to(kind={nm})", lambda w, bad=bad: N(w)[-1].move_to(w.trees[0], kind=bad))
+            c(f"TypedNode.from_dict(item kind={nm})", lambda w, bad=bad: [n for n in N(w) if not n._children][0].from_dict(
+                [{"data": "q1"}, {"data": "q2", "kind": bad, "children": [{"data": "q3", "kind": bad}]}]))
+
+            def load_bad(w, bad=bad):
+                fp = io.StringIO()
+                w.trees[0].save(fp, mapper=lambda node, data: dict(data, str=node.name))
+                doc = _json.loads(fp.getvalue())
+                vm = doc["meta"].get("$value_map") or doc["meta"].get("value_map") or {}
+                if isinstance(bad, (str, int, bool)) and "kind" in vm and vm["kind"]:
+                    vm["kind"][0] = bad
+                else:
+                    raise ValueError("kind value cannot be written to a file")
+                w.trees[0].__class__.load(io.StringIO(_json.dumps(doc)), mapper=lambda parent, data: data.get("str", "?"))
+
+            c(f"TypedTree.load(file with kind={nm})", load_bad)
+
     def calc_unhashable(w):
         t = w.trees[0]
         old = t._calc_data_id_hook
